@@ -18,6 +18,24 @@ from c01 import report_traces
 AMPS = [[1, 0], [-1, 0], [2, 0], [-2, 0], [0, 1], [0, -1], [0, 2], [3, 0]]
 
 
+def rounded_obs(obj, sym, tol=1e-7):
+    """ alpha of the dense tensor of an object produced by a floating-point routine (SVD / QR inside): entries rounded to Gaussian integers,
+    None if they are not integers within tol (relative to the largest entry) """
+    x = obj
+    if getattr(obj, 'pC', None) is not None:
+        x = obj.shallow_copy()
+        x.absorb_central_()
+    t = x.to_tensor() if hasattr(x, 'to_tensor') else x
+    t = t.copy()
+    d = np.asarray(t._data)
+    r = np.round(d.real) + (1j * np.round(d.imag) if np.iscomplexobj(d) else 0)
+    scale = max(1.0, float(np.max(np.abs(d)))) if d.size else 1.0
+    if d.size and float(np.max(np.abs(d - r))) > tol * scale:
+        return None
+    t._data[...] = r
+    return T.alpha(t, sym, views=False)
+
+
 def cnum(z):
     c = complex(*z)
     return c.real if c.imag == 0 else c
@@ -153,6 +171,43 @@ def program(args):
                 m1, m2 = rng.choice(mpos), rng.choice(mpos)
                 res = objs[m1] @ objs[m2]
                 add(res, 2, {'op': 'm_compose', 'a': m1 + 1, 'b': m2 + 1, 'N': N, 'ph': 2})
+            elif r < 0.64 and mpos and psis:
+                # zipper / variational compression WITHOUT truncation reproduce the exact product (SVD inside: entries rounded, must be integers within 1e-7)
+                m, p = rng.choice(mpos), rng.choice(psis)
+                big = {'D_total': 4096, 'tol': 1e-13}
+                how = rng.choice(('zipper', 'zipper', 'compress', 'compress-iter'))
+                outs = []
+                z = mps.zipper(objs[m], objs[p], opts_svd=big, normalize=False)
+                if how == 'zipper':
+                    outs.append(('zipper', z))
+                elif how == 'compress':
+                    mps.compression_(z, (objs[m], objs[p]), method=rng.choice(('1site', '2site')), max_sweeps=rng.choice((1, 2, 3)), normalize=False, opts_svd=big)
+                    outs.append(('compression_', z))
+                else:
+                    meth = rng.choice(('1site', '2site'))
+                    for k_, out in enumerate(mps.compression_(z, (objs[m], objs[p]), method=meth, max_sweeps=3, iterator=True, normalize=False, opts_svd=big)):
+                        outs.append(('compression_ iterator %s sweep %d' % (meth, out.sweeps), z.copy()))
+                for lab, res in outs:
+                    o = rounded_obs(res, sym)
+                    if o is None:
+                        ev.append({'op': 'm_apply', 'a': m + 1, 'b': p + 1, 'N': N, 'ph': 1, 'out': 'not the integer product (%s)' % lab, 'via': lab})
+                    elif len(o['ent']) <= 300:
+                        ev.append({'op': 'm_apply', 'a': m + 1, 'b': p + 1, 'N': N, 'ph': 1, 'out': 'ok', 'obs': o, 'via': lab})
+                        objs.append(res)
+                        kinds.append(0)          # registered and checked, not used as an operand (floating-point site tensors)
+            elif r < 0.67:
+                # mps_from_tensor of the dense tensor gives back the same object
+                o0 = ev_obs(ev, a)
+                ten = objs[a].to_tensor() if objs[a].pC is None else None
+                if ten is not None and N >= 1:
+                    res = mps.mps_from_tensor(ten, nr_phys=ph, canonize=rng.choice(('last', 'first')), opts_svd={'D_total': 4096, 'tol': 1e-13})
+                    o = rounded_obs(res, sym)
+                    if o is None:
+                        ev.append({'op': 'copy', 'a': a + 1, 'out': 'mps_from_tensor does not reproduce the tensor', 'via': 'mps_from_tensor'})
+                    else:
+                        ev.append({'op': 'copy', 'a': a + 1, 'out': 'ok', 'obs': o, 'via': 'mps_from_tensor'})
+                        objs.append(res)
+                        kinds.append(0)
             elif r < 0.70:
                 k = rng.choice(('m_conj', 'm_transpose', 'm_hc', 'm_reverse'))
                 res = {'m_conj': lambda o: o.conj(), 'm_transpose': lambda o: o.transpose() if rng.random() < 0.5 else o.T,
@@ -181,6 +236,125 @@ def program(args):
             'knob': {'fusion': 'hard', 'force': 'none', 'policy': 'fuse_to_matrix'}, 'ev': ev}
 
 
+def pbc_program(args):
+    """ periodic MPO: the dense matrix of MpoPBC.to_tensor() (also with a non-unit factor) and measure_mpo(bra, Hp, ket) against the ring contraction of the SITE
+    TENSORS carried out with tensor events (tensordot / trace / transpose, each validated by TLC): to_tensor() must be a copy of that register """
+    import yastn
+    import yastn.tn.mps as mps
+    from yastn import YastnError
+    fi, seed = args
+    fam = mpsx.FAMILIES[fi]
+    sym = fam[1]
+    rng = random.Random(seed)
+    ops = mpsx.ops_of(fam)
+    cfg = ops.config
+    cfg.backend.random_seed(seed % 10007)
+    d = mpsx.local_dim(fam)
+    N = rng.choice((1, 1, 2, 2, 3)) if d == 2 else rng.choice((1, 1, 2))
+    phys = ops.space()
+    regs, ev = [], []
+
+    def reg(t, e):
+        o = T.alpha(t, sym, views=False)
+        if len(o['ent']) > 300:
+            raise Machinery('pbc: tensor too large for the exact engine')
+        e['obs'] = o
+        e['out'] = 'ok'
+        ev.append(e)
+        regs.append(t)
+        return len(regs) - 1
+
+    def do(op):
+        out, res = T.apply_op(op, regs)
+        e = T.event_of(op, out, res, sym, None)
+        if out != 'ok':
+            raise Machinery('pbc reference contraction failed: %s' % out)
+        if len(e['obs']['ent']) > 300:
+            return None
+        ev.append(e)
+        regs.append(res)
+        return len(regs) - 1
+    # virtual leg of the ring: 1-2 sectors of dimension 1-2
+    if T.SYMS[sym]:
+        ts = sorted(set([tuple(0 for _ in T.SYMS[sym])] + [tuple(phys.t[rng.randrange(len(phys.t))]) for _ in range(rng.choice((0, 1)))]))
+        v = yastn.Leg(cfg, s=-1, t=ts, D=[rng.choice((1, 2)) for _ in ts])
+    else:
+        v = yastn.Leg(cfg, s=-1, D=(rng.choice((1, 2, 3)),))
+    Hp = mps.Mpo(N, periodic=True)
+    sites = []
+    for n in range(N):
+        for _ in range(8):
+            A = yastn.rand(cfg, legs=[v, phys, v.conj(), phys.conj()], n=cfg.sym.zero() if T.SYMS[sym] else None, dtype='complex128' if rng.random() < 0.2 else 'float64')
+            if A.size:
+                break
+        if not A.size:
+            return None
+        for t in A.get_blocks_charge():
+            blk = A[t]
+            vals = np.array([rng.choice((-2, -1, 1, 1, 2, 0)) for _ in range(blk.size)], dtype=np.float64).reshape(blk.shape)
+            if np.iscomplexobj(blk):
+                vals = vals + 1j * np.array([rng.choice((-1, 0, 0, 1)) for _ in range(blk.size)]).reshape(blk.shape)
+            blk[...] = vals
+        Hp[n] = A
+        sites.append(reg(A, {'op': 'init'}))
+    # ring contraction with tensor events: legs (vl, k0, b0, k1, b1, ..., vr) then trace over (vl, vr)
+    cur = do({'op': 'transpose', 'a': sites[0], 'p': [0, 1, 3, 2]})            # vl k0 b0 vr
+    for n in range(1, N):
+        if cur is None:
+            return None
+        nl = 2 + 2 * n
+        cur = do({'op': 'tensordot', 'a': cur, 'b': sites[n], 'la': [nl - 1], 'lb': [0], 'conj': [0, 0]})     # ... k_n vr b_n
+        if cur is None:
+            return None
+        cur = do({'op': 'transpose', 'a': cur, 'p': list(range(nl - 1)) + [nl - 1, nl + 1, nl]})
+    if cur is None:
+        return None
+    ring = do({'op': 'trace', 'a': cur, 'l0': [0], 'l1': [2 * N + 1]})
+    if ring is None:
+        return None
+    try:
+        ev.append({'op': 'copy', 'a': ring + 1, 'out': 'ok', 'obs': T.alpha(Hp.to_tensor(), sym, views=False), 'via': 'MpoPBC.to_tensor N=%d' % N})
+        regs.append(Hp.to_tensor())
+        z = rng.choice(AMPS)
+        sc = do({'op': 'scale', 'a': ring, 'amp': [z]})
+        Hs = cnum(z) * Hp if rng.random() < 0.5 else Hp * cnum(z)
+        if sc is not None:
+            ev.append({'op': 'copy', 'a': sc + 1, 'out': 'ok', 'obs': T.alpha(Hs.to_tensor(), sym, views=False), 'via': 'scaled MpoPBC.to_tensor N=%d factor=%s' % (N, Hs.factor)})
+            regs.append(Hs.to_tensor())
+        # <bra| Hp |ket> with integer MPS: the dense number through tensor events, the measured one as a second vdot event over the same registers
+        I = mps.product_mpo(ops.I(), N)
+        ket = None
+        for _ in range(6):
+            try:
+                ket = mpsx.int_mps(I, rng, D=rng.choice((1, 2)))
+                nk = ket.virtual_leg('first').t[0] if T.SYMS[sym] else None
+                bra = mpsx.int_mps(I, rng, D=2, n=nk) if rng.random() < 0.7 else ket
+                break
+            except YastnError:
+                ket = None
+        if ket is None:
+            return {'sym': sym, 'ferm': T.ferm_vector(sym, cfg.fermionic), 'seed': seed, 'family': list(fam), 'kind': 'pbc',
+                    'knob': {'fusion': 'hard', 'force': 'none', 'policy': 'fuse_to_matrix'}, 'ev': ev}
+        ik = reg(ket.to_tensor(), {'op': 'init'})
+        ib = reg(bra.to_tensor(), {'op': 'init'}) if bra is not ket else ik
+        for which, H in ((ring, Hp), (sc, Hs)):
+            if which is None:
+                continue
+            hk = do({'op': 'tensordot', 'a': which, 'b': ik, 'la': [2 * k + 1 for k in range(N)], 'lb': list(range(N)), 'conj': [0, 0]})
+            if hk is None:
+                continue
+            out, val = T.apply_op({'op': 'vdot', 'a': ib, 'b': hk, 'conj': [1, 0]}, regs)
+            ev.append(T.event_of({'op': 'vdot', 'a': ib, 'b': hk, 'conj': [1, 0]}, out, val, sym, None))
+            m = mps.measure_mpo(bra, H, ket) if rng.random() < 0.5 else mps.vdot(bra, H, ket)
+            e2 = T.event_of({'op': 'vdot', 'a': ib, 'b': hk, 'conj': [1, 0]}, 'num', complex(m), sym, None)
+            e2['via'] = 'measure_mpo with MpoPBC N=%d' % N
+            ev.append(e2)
+    except YastnError as ex:
+        raise Machinery('pbc driver: %s' % ex)
+    return {'sym': sym, 'ferm': T.ferm_vector(sym, cfg.fermionic), 'seed': seed, 'family': list(fam), 'kind': 'pbc',
+            'knob': {'fusion': 'hard', 'force': 'none', 'policy': 'fuse_to_matrix'}, 'ev': ev}
+
+
 def ev_obs(ev, j):
     regs = [e for e in ev if 'obs' in e]
     return regs[j]['obs']
@@ -195,9 +369,24 @@ def main(tier, seed, replay=None):
                        'non-trivial = event whose result (or operands, for numbers) has >= 1 non-zero element')
     n = 240 if tier == 'quick' else 4000
     jobs = [(i % len(mpsx.FAMILIES), seed * 1000211 + i, 10 if tier == 'quick' else 14) for i in range(n)]
+    pjobs = [(i % len(mpsx.FAMILIES), seed * 1000231 + i) for i in range(n // 2)]
+    if replay:
+        import json
+        c = json.load(open(replay))['case']
+        fi = [list(f) for f in mpsx.FAMILIES].index(list(c['family']))
+        jobs = [(fi, c['seed'], 10 if tier == 'quick' else 14)] if c.get('kind') != 'pbc' else []
+        pjobs = [(fi, c['seed'])] if c.get('kind') == 'pbc' else []
     with ProcessPoolExecutor(max_workers=14) as ex:
         traces = [t for t in ex.map(program, jobs, chunksize=4) if t]
+        traces += [t for t in ex.map(pbc_program, pjobs, chunksize=4) if t]
     nev, kinds, rej = report_traces(rep, traces)
+    bys = {(t['seed'], t.get('kind', 'program')): t for t in traces}
+    for v in rep.violations:
+        t = bys.get((v[2].get('seed'), 'pbc')) if ('pbc', v[2].get('seed')) in {(t.get('kind'), t['seed']) for t in traces} and any(e.get('via', '').find('MpoPBC') >= 0 for e in bys[(v[2]['seed'], 'pbc')]['ev'][:v[2].get('event', 0)]) else bys.get((v[2].get('seed'), 'program'))
+        t = t or bys.get((v[2].get('seed'), 'pbc'))
+        if t:
+            v[2]['family'] = t['family']
+            v[2]['kind'] = t.get('kind', 'program')
     if not replay:
         from vlib import negative_controls
         def c_val(e):
@@ -213,7 +402,14 @@ def main(tier, seed, replay=None):
     rep.cov['traces_validated_against_impl'] = len(traces)
     rep.cov['evaluations'] = nev
     rep.cov['distinct_nontrivial'] = sum(1 for t in traces for e in t['ev'] if e['op'] != 'init' and (('obs' in e and e['obs']['ent']) or ('val' in e and any(e['val']))))
-    rep.cov['parts'].update({'events_by_op': kinds, 'families': sorted({'%s/%s' % tuple(t['family']) for t in traces})})
+    via = {}
+    for t in traces:
+        for e in t['ev']:
+            if 'via' in e:
+                k = e['via'].split(' N=')[0].split(' sweep')[0]
+                via[k] = via.get(k, 0) + 1
+    rep.cov['parts'].update({'events_by_op': kinds, 'families': sorted({'%s/%s' % tuple(t['family']) for t in traces}), 'floating_point_routines_and_periodic_mpo': via,
+                             'periodic_mpo_programs': sum(1 for t in traces if t.get('kind') == 'pbc')})
     t0 = traces[len(traces) // 2]
     rep.sample({'family': t0['family'], 'seed': t0['seed'], 'ops': [{k: v for k, v in e.items() if k != 'obs'} for e in t0['ev'] if e['op'] != 'init']})
     rep.assumptions += ['mps_from_tensor, zipper and variational compression (SVD-based, inexact) are not part of this exact check yet', 'chain lengths bounded by the size of the dense representative (<= 300 elements)']
